@@ -22,7 +22,41 @@ fn history(out: &mut Out, rng: &mut Prng, len: usize, check_overflow: bool) {
     let mut max_fresh: u64 = 0;
     let mut bad: Option<String> = None;
     for _ in 0..len {
-        let r = rng.below(10);
+        let r = rng.below(11);
+        if r == 10 {
+            // a burst of same-shaped answers to different calls of one client, back to back on this connection (what a
+            // service does): each must carry ITS call's serial as reply serial, and a fresh serial of its own
+            let burst = 2 + rng.below(2);
+            let kind = rng.below(3);
+            for b in 0..burst {
+                let call_serial = 0x0100 + (ops.len() as u32) * 7 + b as u32;
+                let call = DynamicHeader { serial: NonZeroU32::new(call_serial), sender: Some(":1.5".into()), member: Some("M".into()), interface: Some("a.b".into()), object: Some("/o".into()), ..Default::default() };
+                let reply = match kind {
+                    0 => call.make_response(),
+                    1 => call.make_error_response("a.b.Err", None),
+                    _ => rustbus::standard_messages::unknown_method(&call),
+                };
+                let reported = conn.send.send_message(&reply).unwrap().write_all().map_err(|e| e.1).unwrap().get() as u64;
+                let bytes = peer::drain(&mut server);
+                let frames = peer::split_frames(&bytes).unwrap_or_default();
+                if frames.len() != 1 {
+                    bad = Some(format!("{} frames on the wire for one reply", frames.len()));
+                    break;
+                }
+                let m = peer::decode_frame(&frames[0]).unwrap();
+                let on_wire = m.dynheader.serial.unwrap().get() as u64;
+                if m.dynheader.response_serial.map(|x| x.get()) != Some(call_serial) || m.dynheader.destination.as_deref() != Some(":1.5") {
+                    bad = Some(format!("answer {} of a burst: reply serial {:?} destination {:?} on the wire, the call had serial {} from :1.5", b, m.dynheader.response_serial, m.dynheader.destination, call_serial));
+                }
+                if on_wire != reported || on_wire == 0 || on_wire <= max_fresh {
+                    bad = Some(format!("answer sent with serial {} (reported {}) after {}", on_wire, reported, max_fresh));
+                }
+                max_fresh = on_wire;
+                ops.push("s".into());
+                observed.push(on_wire);
+            }
+            continue;
+        }
         if r < 3 {
             ops.push("a".into());
             let s = conn.send.alloc_serial().get() as u64;
